@@ -224,6 +224,22 @@ fn u16s(xs: &[u16]) -> Vec<u8> {
     xs.iter().flat_map(|x| x.to_be_bytes()).collect()
 }
 
+/// boundary values of the numeric fields: the default NTP port and its neighbours, the NTS-KE port, the ends of
+/// the u16 range
+const PORT_BOUNDARIES: [u16; 7] = [0, 1, 122, 123, 124, 4460, 65535];
+/// error / warning codes: the three assigned error codes, the first unassigned one, the ends of the range
+const CODE_BOUNDARIES: [u16; 7] = [0, 1, 2, 3, 0x7fff, 0x8000, 0xffff];
+/// key sizes advertised in a SupportedAlgorithmList record
+const KEYSIZE_BOUNDARIES: [u16; 8] = [0, 1, 16, 31, 32, 33, 64, 65535];
+
+fn gen_port(rng: &mut Rng) -> u16 {
+    if rng.chance(3, 4) {
+        *rng.pick(&PORT_BOUNDARIES[..])
+    } else {
+        rng.next_u64() as u16
+    }
+}
+
 fn gen_id(rng: &mut Rng) -> u16 {
     match rng.below(10) {
         0 | 1 => 0,
@@ -322,23 +338,17 @@ fn gen_body(rng: &mut Rng, ty: u16) -> Vec<u8> {
             let ids: Vec<u16> = (0..k).map(|_| gen_id(rng)).collect();
             u16s(&ids)
         }
-        2 | 3 | 7 => {
-            let v = match rng.below(6) {
-                0 => 0,
-                1 => 1,
-                2 => 2,
-                3 => 3,
-                4 => 123,
-                _ => rng.next_u64() as u16,
-            };
+        2 | 3 => {
+            let v = if rng.chance(3, 4) { *rng.pick(&CODE_BOUNDARIES[..]) } else { rng.next_u64() as u16 };
             u16s(&[v])
         }
+        7 => u16s(&[gen_port(rng)]),
         6 | 13 | 14 => gen_string(rng),
         10 => {
             let k = rng.usize(0, 4);
             let mut v = vec![];
             for _ in 0..k {
-                v.extend(u16s(&[gen_id(rng), *rng.pick(&[32u16, 64, 0, 16, 65535])]));
+                v.extend(u16s(&[gen_id(rng), *rng.pick(&KEYSIZE_BOUNDARIES[..])]));
             }
             v
         }
@@ -461,6 +471,13 @@ fn record_corpus() -> Vec<Vec<u8>> {
         vec![0, 0],
         vec![0, 0, 0],
     ]
+    .into_iter()
+    .chain(PORT_BOUNDARIES.iter().map(|p| rec(0x8007, &u16s(&[*p]))))
+    .chain(CODE_BOUNDARIES.iter().map(|c| rec(0x8002, &u16s(&[*c]))))
+    .chain(CODE_BOUNDARIES.iter().map(|c| rec(0x8003, &u16s(&[*c]))))
+    .chain(KEYSIZE_BOUNDARIES.iter().map(|k| rec(0x800a, &u16s(&[15, *k, 0xffff, *k]))))
+    .chain([rec(0x8006, &[]), rec(13, &[]), rec(14, &[]), rec(5, &[]), rec(0x800c, &[]), rec(0x8001, &u16s(&[0, 0xffff, 0x8001])), rec(0x8004, &u16s(&[0, 0xffff, 15, 17]))])
+    .collect()
 }
 
 fn gen_rec_case(rng: &mut Rng, idx: u64, _run: &Run) -> Vec<String> {
@@ -506,7 +523,7 @@ fn key_len(alg: u16) -> usize {
 fn gen_ignored_for_request(rng: &mut Rng) -> Vec<u8> {
     match rng.below(4) {
         0 => rec(0x8006, &gen_string_valid(rng)),
-        1 => rec(0x8007, &u16s(&[rng.next_u64() as u16])),
+        1 => rec(0x8007, &u16s(&[gen_port(rng)])),
         2 => rec(*rng.pick(&[11u16, 15, 100, 0x7fff]), &{
             let n = rng.usize(0, 20);
             rng.bytes(n)
@@ -629,11 +646,14 @@ fn gen_response_records(rng: &mut Rng) -> Vec<Vec<u8>> {
         };
         recs.push(rec(5, &rng.bytes(l)));
     }
-    if rng.chance(1, 3) {
-        recs.push(rec(0x8006, &gen_string_valid(rng)));
+    match rng.below(6) {
+        0 => recs.push(rec(0x8006, &[])), // present but empty is not the same value as absent
+        1 => recs.push(rec(0x8006, b"localhost")),
+        2 => recs.push(rec(0x8006, &gen_string_valid(rng))),
+        _ => {}
     }
-    if rng.chance(1, 3) {
-        recs.push(rec(0x8007, &u16s(&[rng.next_u64() as u16])));
+    if rng.chance(1, 2) {
+        recs.push(rec(0x8007, &u16s(&[gen_port(rng)])));
     }
     if rng.chance(1, 3) {
         recs.push(rec(8, &[]));
@@ -779,24 +799,107 @@ fn assemble_message(rng: &mut Rng, mut recs: Vec<Vec<u8>>, is_request: bool) -> 
 }
 
 fn request_corpus() -> Vec<Vec<u8>> {
-    vec![
+    let mut v = vec![
         vec![0x80, 4, 0, 2, 0, 15, 0x80, 1, 0, 2, 0, 0, 0x80, 0, 0, 0],
         vec![0x80, 1, 0, 4, 0x80, 1, 0, 0, 0x80, 4, 0, 2, 0, 17, 0x80, 0, 0, 0],
         vec![0x80, 1, 0, 2, 0, 0, 0x80, 0, 0, 0],
         vec![0x80, 0, 0, 0],
         vec![],
-    ]
+    ];
+    let msg = |recs: Vec<Vec<u8>>| {
+        let mut m = recs.concat();
+        m.extend(rec(0x8000, &[]));
+        m
+    };
+    // default-looking / boundary values of every field a request keeps
+    // key exchange: empty lists, empty and default-looking denied names, ids at the ends of the range
+    v.push(msg(vec![rec(0x8001, &[]), rec(0x8004, &[])]));
+    v.push(msg(vec![rec(0x8001, &u16s(&[0, 0xffff, 0x8001, 0x8000, 0x7fff])), rec(0x8004, &u16s(&[0, 15, 17, 16, 0xffff]))]));
+    v.push(msg(vec![rec(0x8001, &u16s(&[0])), rec(0x8004, &u16s(&[15])), rec(13, &[]), rec(13, b"localhost"), rec(13, &[])]));
+    // fixed key: empty token, both algorithms, keep-alive absent / present, protocol ids 0 / unknown
+    for (alg, klen) in [(15u16, 32usize), (17, 64)] {
+        for ka in [false, true] {
+            let mut r = vec![rec(14, &[]), rec(0x800c, &vec![0u8; 2 * klen]), rec(0x8001, &u16s(&[if ka { 0xffff } else { 0 }])), rec(0x8004, &u16s(&[alg]))];
+            if ka {
+                r.push(rec(8, &[]));
+            }
+            v.push(msg(r));
+        }
+    }
+    // support: every combination of the three flags, empty token
+    for bits in 1..8u8 {
+        let mut r = vec![rec(14, if bits & 4 != 0 { &b"hi"[..] } else { &[][..] })];
+        if bits & 1 != 0 {
+            r.push(rec(0x8009, &[]));
+        }
+        if bits & 2 != 0 {
+            r.push(rec(0x800a, &[]));
+        }
+        if bits & 4 != 0 {
+            r.push(rec(8, &[]));
+        }
+        if bits & 3 != 0 {
+            v.push(msg(r));
+        }
+    }
+    // ignored records carrying boundary values
+    for p in PORT_BOUNDARIES {
+        v.push(msg(vec![rec(0x8001, &u16s(&[0])), rec(0x8007, &u16s(&[p])), rec(0x8004, &u16s(&[15]))]));
+    }
+    v
 }
 
 fn response_corpus() -> Vec<Vec<u8>> {
-    vec![
+    let mut v = vec![
         vec![0x80, 1, 0, 2, 0, 0, 0x80, 4, 0, 2, 0, 15, 0, 5, 0, 2, 1, 2, 0x80, 0, 0, 0],
         vec![0x80, 1, 0, 2, 0x80, 1, 0x80, 4, 0, 2, 0, 17, 0x80, 0, 0, 0],
         vec![0x80, 1, 0, 0, 0x80, 0, 0, 0],
         vec![0x80, 1, 0, 2, 0, 0, 0x80, 4, 0, 0, 0x80, 0, 0, 0],
         vec![0x80, 2, 0, 2, 0, 1, 0x80, 0, 0, 0],
         vec![0x80, 3, 0, 2, 0, 1, 0x80, 0, 0, 0],
-    ]
+    ];
+    let msg = |recs: Vec<Vec<u8>>| {
+        let mut m = recs.concat();
+        m.extend(rec(0x8000, &[]));
+        m
+    };
+    let head = || vec![rec(0x8001, &u16s(&[0])), rec(0x8004, &u16s(&[15])), rec(5, &[1, 2, 3])];
+    // every boundary value of the port field (123 = the default a client assumes when the record is absent),
+    // alone and together with a server name
+    for p in PORT_BOUNDARIES {
+        let mut r = head();
+        r.push(rec(0x8007, &u16s(&[p])));
+        v.push(msg(r));
+        let mut r = head();
+        r.push(rec(0x8006, b"localhost"));
+        r.push(rec(0x8007, &u16s(&[p])));
+        r.push(rec(8, &[]));
+        v.push(msg(r));
+    }
+    // server name: absent, present but empty, default-looking
+    v.push(msg(head()));
+    let mut r = head();
+    r.push(rec(0x8006, &[]));
+    v.push(msg(r));
+    let mut r = head();
+    r.push(rec(0x8006, b"localhost"));
+    v.push(msg(r));
+    // cookies: none, empty ones, exactly 8, 9 (the ninth is dropped); ids at the ends of the range
+    v.push(msg(vec![rec(0x8001, &u16s(&[0xffff])), rec(0x8004, &u16s(&[0]))]));
+    v.push(msg(vec![rec(0x8001, &u16s(&[0x8001])), rec(0x8004, &u16s(&[0xffff])), rec(5, &[]), rec(5, &[])]));
+    for n in [8usize, 9] {
+        let mut r = vec![rec(0x8001, &u16s(&[0])), rec(0x8004, &u16s(&[17]))];
+        for i in 0..n {
+            r.push(rec(5, &[i as u8]));
+        }
+        v.push(msg(r));
+    }
+    // error / warning codes
+    for c in CODE_BOUNDARIES {
+        v.push(msg(vec![rec(0x8002, &u16s(&[c]))]));
+        v.push(msg(vec![rec(0x8003, &u16s(&[c]))]));
+    }
+    v
 }
 
 fn gen_msg_case(rng: &mut Rng, idx: u64, is_request: bool) -> Vec<String> {
